@@ -33,6 +33,9 @@ CONSTANTS ClipFiles,   \* set of <<fr, te_p, te_q, tden, ch, N>> : files on whic
           EmptyGuard,  \* FALSE: create_range_dim reads coords[-1] of an empty range (as found) | TRUE: guarded
           Pres,        \* derived-twice cases: the source is first resampled to a rate of Pres, then the case's operation is applied to the SAME source
           PreSpecSrcs, \* the sources of SpecSrcs on which the derived-twice spectrograms are enumerated (all of ResSrcs are)
+          HistStride,  \* every HistStride-th clip is also run with each history: load, mutate / rewrite, load again
+          ReadCache,   \* FALSE: every load reads the file (the implementation keeps no state between calls) |
+                       \* TRUE: decoded blocks are cached by (path, offset, samples) and handed out without a copy (seeded change C15-r2sb1)
           AliasAttrs   \* FALSE: resample builds fresh attributes for the new time axis (the implementation) |
                        \* TRUE: it writes step = 1/target into the live attrs of the source's time coordinate (seeded change C15-sb2)
 VARIABLES c, pc, m
@@ -41,8 +44,14 @@ vars == <<c, pc, m>>
 
 Mk(kind, f, s, e, src, w, h, tg) ==
     [kind |-> kind, fr |-> f[1], te |-> <<f[2], f[3]>>, tden |-> f[4], ch |-> f[5], N |-> f[6],
-     s |-> s, e |-> e, src |-> src, w |-> w, h |-> h, target |-> tg, pre |-> 0]
+     s |-> s, e |-> e, src |-> src, w |-> w, h |-> h, target |-> tg, pre |-> 0,
+     hist |-> "none", N2 |-> f[6], base2 |-> 0]
 WithPre(k, p) == [k EXCEPT !.pre = p]
+Hists == {"mutate", "rewrite", "rewrite_len"}
+\* the file at the second load: other values (base 100); "rewrite_len": two frames longer or (odd start tick) shorter
+WithHist(k, h) == [k EXCEPT !.hist = h,
+                            !.N2 = IF h = "rewrite_len" THEN (IF k.s % 2 = 0 THEN k.N + 2 ELSE Max(1, k.N - 2)) ELSE k.N,
+                            !.base2 = IF h = "mutate" THEN 0 ELSE 100]
 SrF(f)     == (f[1] * f[2]) \div f[3]
 MaxTick(f) == ((f[6] + Pad) * f[4]) \div SrF(f) + 1
 SrcKind(f) == IF f[8] = 0 THEN "rec" ELSE "clip"
@@ -56,13 +65,18 @@ PreNum(k, p) == (SrcN(k) * p) \div Sr(k)
 
 m0 == [off |-> 0, len |-> 0, pos |-> 0, rows |-> <<>>, t0 |-> 0, d |-> <<>>, step |-> 0,
        fd |-> <<>>, fstep |-> 0, np0 |-> 0, np |-> 0, nov |-> 0, num |-> 0, raised |-> "",
+       pass |-> 1, fN |-> 0, fbase |-> 0,     \* which load this is; the file as it is now: frames, first value - 1
+       cache |-> <<>>,                         \* ReadCache variant: <<rows>> of the cached block (<<>>: nothing cached)
        sstep |-> <<1, 1>>,        \* the step the SOURCE array advertises, in samples (a rational <<p, q>>)
        sobs |-> <<0, 0, 0>>]      \* re-observation of the source after the call(s): <<frames, p, q>>
 
 \* (quantifiers instead of  c \in RecCases \cup ClipCases ...: TLC enumerates them without building the big set)
-Init == /\ pc = "start" /\ m = m0
+Init == /\ pc = "start"
         /\ \/ \E f \in ClipFiles : c = Mk("rec", f, 0, 0, "rec", 0, 0, 0)
+           \/ \E f \in ClipFiles : \E h \in Hists : c = WithHist(Mk("rec", f, 0, 0, "rec", 0, 0, 0), h)
            \/ \E f \in ClipFiles : \E e \in 0..MaxTick(f) : \E s \in 0..e : c = Mk("clip", f, s, e, "clip", 0, 0, 0)
+           \/ \E f \in ClipFiles : \E e \in 0..MaxTick(f) : \E s \in 0..e : \E h \in Hists :
+                 (s + 3 * e) % HistStride = 0 /\ c = WithHist(Mk("clip", f, s, e, "clip", 0, 0, 0), h)
            \/ \E f \in SpecSrcs : \E w \in 1..MaxW : \E h \in 1..w :
                  \E p \in {0} \cup (IF f \in PreSpecSrcs THEN Pres ELSE {}) :
                     LET k == Mk("spec", f, f[7], f[8], SrcKind(f), w, h, 0)
@@ -70,28 +84,44 @@ Init == /\ pc = "start" /\ m = m0
            \/ \E f \in ResSrcs : \E tg \in Targets : \E p \in {0} \cup Pres :
                  LET k == Mk("resamp", f, f[7], f[8], SrcKind(f), 0, 0, tg)
                  IN  ImplNum(k, SrcN(k)) <= MaxNum /\ PreNum(k, p) <= MaxNum /\ c = WithPre(k, p)
+        /\ m = [m0 EXCEPT !.fN = c.N]
 
 Stay == UNCHANGED c
 Iota(n) == [i \in 1..n |-> i - 1]
 
-(* ---- load_recording: create_time_range(0, duration, samplerate) ---- *)
+\* where a load ends: the first load of a case with a history is followed by the caller's / the world's step
+After == IF c.hist # "none" /\ m.pass = 1 THEN "between" ELSE "done"
+\* the block a load reads: from the file as it is now -- or, in the ReadCache variant, whatever is cached under the
+\* same (path, offset, samples)
+Block(pos, len) == IF ReadCache /\ m.cache # <<>> THEN m.cache[1]
+                   ELSE [i \in 1..len |-> FileRow(pos + i - 1, c.ch, m.fN, m.fbase)]
+
+(* ---- load_recording: load_audio(path) whole file; create_time_range(0, duration, samplerate), duration from the
+        Recording (rebuilt from the file before the second load) ---- *)
 Rec == /\ pc = "start" /\ c.kind = "rec"
-       /\ m' = [m EXCEPT !.len = c.N, !.d = Iota(c.N), !.step = 1]
-       /\ pc' = "done" /\ Stay
+       /\ LET rows == Block(0, m.fN) IN
+          IF Len(rows) = m.fN
+          THEN /\ m' = [m EXCEPT !.len = m.fN, !.rows = rows, !.d = Iota(m.fN), !.step = 1,
+                                 !.cache = IF ReadCache THEN <<rows>> ELSE <<>>]
+               /\ pc' = After
+          ELSE /\ m' = [m EXCEPT !.raised = "ValueError"]            \* xarray: coordinate / data length mismatch
+               /\ pc' = "raised"
+       /\ Stay
 
 (* ---- load_clip ---- *)
 ClipArith == /\ pc = "start" /\ c.kind = "clip"
              /\ m' = [m EXCEPT !.off = OffNum(c) \div c.tden,          \* int(np.floor(start_time * samplerate))
                                !.len = LenNum(c) \div c.tden]          \* int(np.floor(duration * samplerate))
              /\ pc' = "seek" /\ Stay
-SeekFail  == /\ pc = "seek" /\ m.off > c.N /\ ~SeekClamp               \* libsndfile: psf_fseek() failed
+SeekFail  == /\ pc = "seek" /\ m.off > m.fN /\ ~SeekClamp              \* libsndfile: psf_fseek() failed
              /\ m' = [m EXCEPT !.raised = "LibsndfileError"]
              /\ pc' = "raised" /\ Stay
-Seek      == /\ pc = "seek" /\ ~(m.off > c.N /\ ~SeekClamp)           \* (written without a disjunction: TLC would split the action)
-             /\ m' = [m EXCEPT !.pos = Min(m.off, c.N)]
+Seek      == /\ pc = "seek" /\ ~(m.off > m.fN /\ ~SeekClamp)          \* (written without a disjunction: TLC would split the action)
+             /\ m' = [m EXCEPT !.pos = Min(m.off, m.fN)]
              /\ pc' = "read" /\ Stay
 Read      == /\ pc = "read"                                            \* fp.read(frames=samples, fill_value=0)
-             /\ m' = [m EXCEPT !.rows = [i \in 1..m.len |-> FileRow(m.pos + i - 1, c.ch, c.N)]]
+             /\ LET rows == Block(m.pos, m.len)
+                IN  m' = [m EXCEPT !.rows = rows, !.cache = IF ReadCache THEN <<rows>> ELSE <<>>]
              /\ pc' = "axis" /\ Stay
 \* create_range_dim(start = off/sr, stop = start + len/sr, step = 1/sr): arange has ceil((stop-start)/step) = len
 \* elements; the last one, off+len-1, is dropped if >= stop - step/2 (never, on the lattice); coords[-1] of an
@@ -103,7 +133,18 @@ Axis      == /\ pc = "axis" /\ ~(m.len = 0 /\ ~EmptyGuard)
              /\ LET cnt  == m.len
                     drop == cnt > 0 /\ 2 * (m.off + cnt - 1) >= 2 * (m.off + m.len) - 1
                 IN  m' = [m EXCEPT !.t0 = m.off, !.d = Iota(IF drop THEN cnt - 1 ELSE cnt), !.step = 1]
-             /\ pc' = "done" /\ Stay
+             /\ pc' = After /\ Stay
+
+(* ---- between the two loads of a case with a history: the caller edits the returned array in place (in the
+        ReadCache variant that array IS the cached block), or the file is rewritten; then the same call is made again.
+        The implementation keeps nothing from the first call ---- *)
+Between == /\ pc = "between"
+           /\ LET edited == [i \in 1..Len(m.rows) |-> [j \in 1..c.ch |-> m.rows[i][j] + 3]]
+              IN  m' = [m EXCEPT !.pass = 2,
+                                 !.rows = IF c.hist = "mutate" THEN edited ELSE m.rows,
+                                 !.cache = IF c.hist = "mutate" /\ ReadCache THEN <<edited>> ELSE m.cache,
+                                 !.fN = c.N2, !.fbase = c.base2]
+           /\ pc' = "start" /\ Stay                                   \* Reload: the same call again
 
 (* ---- derived twice: resample(source, pre) first, its result set aside; the case's operation then runs on the same source.
         The implementation does not touch its input; the AliasAttrs variant writes the new step into the source's attrs
@@ -152,7 +193,7 @@ Reobserve == /\ pc = "reobs"
              /\ pc' = "done" /\ Stay
 
 Next == Rec \/ ClipArith \/ SeekFail \/ Seek \/ Read \/ AxisEmpty \/ Axis
-        \/ Pre \/ ResArith \/ ResRaise \/ ResAxis \/ SpecArith \/ SpecRaise \/ SpecFrames \/ Reobserve
+        \/ Between \/ Pre \/ ResArith \/ ResRaise \/ ResAxis \/ SpecArith \/ SpecRaise \/ SpecFrames \/ Reobserve
 Spec == Init /\ [][Next]_vars /\ WF_vars(Next)
 
 Export == pc \in {"done", "raised"} => PrintT(<<"CASE", ToJson(c)>>)
@@ -188,6 +229,9 @@ T_Targets  == (1..24) \cup {30, 32, 40, 64, 80, 100, 4000, 8000, 11025, 16000, 2
 
 (* ---- Impl => Req ---- *)
 ImplClipRefinesReq == (pc = "done" /\ c.kind = "clip") => ClipReqI(c, m.len, m.t0, m.rows, m.d)
+\* load_recording returns the file as it is at the time of the call (what ClipSameAsRecording compares clips with)
+ImplRecIsFile      == (pc = "done" /\ c.kind = "rec") =>
+                         m.len = c.N2 /\ m.rows = [i \in 1..c.N2 |-> FileRow(i - 1, c.ch, c.N2, c.base2)]
 ImplProduces       == pc = "raised" => ~MustProduceN(c, TRUE, SrcN(c))
 ImplTimeAxis       == pc = "done" => AxisReqI(m.d, m.step)
 ImplFreqAxis       == (pc = "done" /\ c.kind = "spec") => AxisReqI(m.fd, m.fstep)
